@@ -19,7 +19,7 @@ from .. import tlc, engine
 from ..common import Report, pmap, harness_errors, rng, setup_repo, canon
 
 PROP = 'C01'
-KINDS_NOFAULT = ['src', 'map', 'filter', 'del', 'obs', 'sort', 'fin']
+KINDS_NOFAULT = ['src', 'map', 'filter', 'del', 'obs', 'sort', 'fin', 'dup', 'cat']
 
 
 def model(rep, max_len):
@@ -30,6 +30,15 @@ def model(rep, max_len):
         invariants=['NoDeadlock', 'LazyEqualsEager', 'ObserverComplete', 'AllObserversCommit', 'FinalizerOnce'])
     res = tlc.run_tlc('Engine', cfg, allow_violation=False, timeout=3000, coverage=True)
     rep.add_tlc(res, 'Engine MaxLen=%d kinds=%s: LazyEqualsEager, NoDeadlock, ObserverComplete' % (max_len, ','.join(KINDS_NOFAULT)))
+    # the model explains a design rule: the copy made by duplicate holds what had streamed when it is asked for, so a
+    # delete_resource that skipped the rows of the resource it drops would break the equivalence (TLC must refute it)
+    cfg = tlc.write_cfg(os.path.join(wd, 'mcd.cfg'), constants={
+        'MaxLen': 3, 'Sample': 2, 'Ahead': 2, 'SwallowCast': 'FALSE', 'SrcRows': '<- SrcRowsSmall', 'DelDrains': '<- DelSkips',
+        'Kinds': '{"src", "dup", "del"}'}, invariants=['LazyEqualsEager'])
+    res = tlc.run_tlc('Engine', cfg, timeout=3000)
+    if res.violated != 'LazyEqualsEager':
+        raise tlc.MachineryError('vacuity: with a delete_resource that does not drain, Engine.tla must violate LazyEqualsEager (src, dup, del)')
+    rep.notes['non_vacuity_delete_must_drain'] = 'with DelDrains <- DelSkips TLC refutes LazyEqualsEager on (src, dup, del), as expected'
 
 
 # ---------------------------------------------------------------------------
